@@ -246,6 +246,9 @@ func (w *World) Step(i int, st M) (M, error) {
 	}
 	w.out = map[int][]M{}
 	rec := M{"k": "step", "i": i, "step": kind, "conn": cid}
+	if mhas(st, "like") {
+		rec["like"] = geti(st, "like")
+	}
 	if req != nil {
 		rec["req"] = req
 	} else {
@@ -281,6 +284,15 @@ func (w *World) Step(i int, st M) (M, error) {
 				break
 			}
 		}
+		if gets(req, "k") == "Join" && mhas(req, "like") {
+			// symbolic session reference (C03 differential): the session connection `like` is in, whatever its id
+			// is in this run; an id that resolves to nothing when that connection is in no session
+			if sid := w.sidOf(geti(req, "like")); sid != 0 {
+				req["sid"] = sid
+			} else {
+				req["sid"] = 99
+			}
+		}
 		if gets(req, "k") == "Custom" {
 			req["dig"] = w.bodies.canon(geti(req, "len"), geti(req, "dig"))
 		}
@@ -311,7 +323,11 @@ func (w *World) Step(i int, st M) (M, error) {
 		}
 		res = w.process(c, rec)
 	case "Tick":
-		res = w.tick(geti(st, "sid"), rec)
+		tsid := geti(st, "sid")
+		if mhas(st, "like") {
+			tsid = w.sidOf(geti(st, "like"))
+		}
+		res = w.tick(tsid, rec)
 	case "Disc":
 		c := w.conn(cid)
 		if c.life == "closed" {
